@@ -105,8 +105,10 @@ class Obligation:
 
 
 class LoopSpec:
-    def __init__(self, invariants, kinds=None, ghost=None):
+    def __init__(self, invariants, kinds=None, ghost=None, modifies=None, ghost_havoc=None):
         self.invariants = invariants
+        self.ghost_havoc = ghost_havoc or []    # ghost variables updated inside the loop by call effects
+        self.modifies = modifies    # what the loop may write (default: the function's modifies clause)
         self.kinds = kinds or {}
         self.ghost = ghost or {}    # ghost variable -> expression evaluated at the start of every iteration
 
